@@ -6,7 +6,7 @@
     hcount, charge and equal bond maps;  [amap_id] = atom_map is the node id;  orders are half-units. *)
 From Coq Require Import List NArith ZArith Bool.
 From SK Require Import lib.LGraph lib.C01_GraphLemmas model.C01_Model model.C02_Model model.C01_Opts model.C01_String model.C01_Renum
-  proof.C01_Proof proof.C01_OptsProof proof.C01_StringProof proof.C01_StringHyd proof.C01_StringPipe proof.C01_StringEH proof.C01_StringRenum proof.C01_StringHydExt proof.C01_RenumCentre.
+  proof.C01_Proof proof.C01_OptsProof proof.C01_StringProof proof.C01_StringHyd proof.C01_StringPipe proof.C01_StringEH proof.C01_StringRenum proof.C01_StringHydExt proof.C01_RenumCentre proof.C01_RenumWrite.
 Import ListNotations.
 Local Open Scope Z_scope.
 
@@ -327,3 +327,19 @@ Theorem C01_renumber_centre : forall f : N -> N, (forall a b, f a = f b -> a = b
   set_iamap (relabel f (get_rc (its_construct (graph_of mr) (graph_of mp)))).
 Proof. exact renumber_centre. Qed.
 Print Assumptions C01_renumber_centre.
+
+(** 22. ... and what its_to_rsmi hands to GraphToMol for the renumbered ITS (hydrogen list, folding, both sides) is, atom
+        by atom and bond by bond, what it hands over for the original ITS, renumbered.  J = an ITS whose atom_map is the
+        node id (every output of rsmi_to_its).  With 19 and 21: renumbering the atom maps of a reaction string commutes
+        with the whole model of rsmi_to_its / get_rc / its_to_rsmi up to the RWMols. *)
+Theorem C01_its_to_graphs_renumber : forall f : N -> N, (forall a b, f a = f b -> a = b) ->
+  forall J : its, wf J -> (forall n a, label J n = Some a -> i_amap a = Z.of_N n) ->
+  let A := its_to_graphs J in
+  let B := its_to_graphs (set_iamap (relabel f J)) in
+  let rn := fun (m : N) (a : gnode) => GN (g_el a) (g_arom a) (g_hc a) (g_ch a) (g_nb a) (Z.of_N m) in
+  (forall n, label (fst B) (f n) = option_map (rn (f n)) (label (fst A) n)) /\
+  (forall u v, adj (fst B) (f u) (f v) = adj (fst A) u v) /\
+  (forall n, label (snd B) (f n) = option_map (rn (f n)) (label (snd A) n)) /\
+  (forall u v, adj (snd B) (f u) (f v) = adj (snd A) u v).
+Proof. exact its_to_graphs_renumber. Qed.
+Print Assumptions C01_its_to_graphs_renumber.
